@@ -1,4 +1,32 @@
-(* placeholder until the proofs are integrated *)
-From DictIO Require Import Chars Str Value Scalar.
-Theorem C18_placeholder : True. Proof. exact I. Qed.
-Print Assumptions C18_placeholder.
+(* C18  Relative paths and generated include directives lead to the file they name. *)
+From Coq Require Import NArith ZArith List Bool.
+From DictIO Require Import Chars Str Value Scalar Paths MiscSpec PathsProofs.
+Import ListNotations.
+
+(* the relative path joined to the start location denotes the target: below, above and beside the start *)
+Theorem C18_rel_join : forall from to, nodots from -> nodots to -> norm_join from (relative_path from to) = to.
+Proof. exact rel_join. Qed.
+Print Assumptions C18_rel_join.
+
+(* the common root is an ancestor of every path ... *)
+Theorem C18_hcr_ancestor : forall l x, In x l -> is_prefix (common_prefix_all l) x = true.
+Proof. exact hcr_ancestor. Qed.
+Print Assumptions C18_hcr_ancestor.
+
+(* ... and no deeper common ancestor exists *)
+Theorem C18_hcr_deepest : forall l p, l <> [] -> (forall x, In x l -> is_prefix p x = true) ->
+  is_prefix p (common_prefix_all l) = true.
+Proof. exact hcr_deepest. Qed.
+Print Assumptions C18_hcr_deepest.
+
+(* the directive written for an include names, when read again, exactly the relative path that was registered *)
+Theorem C18_directive : forall n, has_char c_dollar n = false -> (has_char c_sq n && has_char c_dq n) = false ->
+  directive_name (of_string "#include " ++ format_string n) = Some n.
+Proof. exact directive_roundtrip. Qed.
+Print Assumptions C18_directive.
+
+Example C18_example :
+  let a := [of_string "t"; of_string "d1"; of_string "s1"; of_string "deep"] in
+  let b := [of_string "t"; of_string "d1"; of_string "s2"; of_string "x.y"; of_string "b"] in
+  relative_path a b = [dotdot; dotdot; of_string "s2"; of_string "x.y"; of_string "b"] /\ norm_join a (relative_path a b) = b.
+Proof. vm_compute. split; reflexivity. Qed.
